@@ -11,6 +11,9 @@ import (
 	dispatchercomp "github.com/noble-assets/orbiter/v2/keeper/component/dispatcher"
 	dispatchertypes "github.com/noble-assets/orbiter/v2/types/component/dispatcher"
 
+	orbitertypes "github.com/noble-assets/orbiter/v2/types"
+
+	"orbverif/altstack"
 	"orbverif/fw"
 	"orbverif/run"
 	"orbverif/world"
@@ -170,6 +173,43 @@ func checkListing(e *fw.Env, name string, pg pager, truth []string, hist any) {
 	if pr == nil || pr.Total != uint64(n) {
 		viol("wrong-total", fmt.Sprintf("count_total reports %v, truth %d (page %v)", pr, n, items))
 		return
+	}
+	// offset windows: with the forward listing as the order, every (offset, limit) window and its
+	// total must be the corresponding slice of the truth - also beyond the end and for filters
+	// that match nothing
+	if fwdAll != nil {
+		for _, off := range []int{0, 1, 2, n - 1, n, n + 1, n + 3} {
+			if off < 0 {
+				continue
+			}
+			for _, lim := range []uint64{1, 3} {
+				items, pr, err := pg(&query.PageRequest{Offset: uint64(off), Limit: lim, CountTotal: true})
+				e.Res.Eval()
+				if err != nil {
+					viol("pagination-error", fmt.Sprintf("offset %d limit %d count_total: %v", off, lim, err))
+					return
+				}
+				lo, hi := off, off+int(lim)
+				if lo > n {
+					lo = n
+				}
+				if hi > n {
+					hi = n
+				}
+				want := fwdAll[lo:hi]
+				if strings.Join(items, "\n") != strings.Join(want, "\n") {
+					viol("offset-window-differs", fmt.Sprintf("offset %d limit %d: got %v want %v", off, lim, items, want))
+					return
+				}
+				// the SDK reports no total when the offset lies beyond the last entry (it returns
+				// before counting): there 0 is accepted as well as n
+				if pr == nil || (pr.Total != uint64(n) && !(off >= n && pr.Total == 0)) {
+					viol("wrong-total", fmt.Sprintf("offset %d limit %d: count_total reports %v, truth %d", off, lim, pr, n))
+					return
+				}
+			}
+		}
+		e.Res.Sig("%s|n=%d|offset-windows", name, bucket(n))
 	}
 	var viaOffset []string
 	for off := 0; off <= n; off += 2 {
@@ -376,12 +416,26 @@ func isDigits(s string) bool {
 
 // CheckC13 grows ledgers by histories and runs the query oracle at checkpoints.
 func CheckC13(e *fw.Env, l *Lab) {
+	swapCtl := newSwapController(l.W)
+	swapStack, err := altstack.New(l.W, altstack.Options{ExtraActions: []orbitertypes.ActionController{swapCtl}})
+	if err != nil {
+		swapStack = nil
+		e.Res.Inconc("alternative stack: %v", err)
+	}
 	hists := e.N(16, 400)
 	for h := 0; h < hists; h++ {
 		ctx, _ := l.Base.CacheContext()
 		sh := NewShadow()
 		steps := 120 + e.R.Intn(200)
 		every := 40 + e.R.Intn(40)
+		// some denomination-changing transfers first (alternative keeper with the swap test
+		// controller over the same store): they leave single-sided entries (incoming only /
+		// outgoing only) in the ledger the application's own query server then has to report
+		if swapStack != nil && e.R.Intn(2) == 0 {
+			for k := 0; k < 3+e.R.Intn(8); k++ {
+				SwapLedgerStep(e, l, swapStack, swapCtl, ctx)
+			}
+		}
 		History(e, l, ctx, sh, steps, every, func(step int, trail []HistOp) bool {
 			before := len(e.Res.Violations)
 			QueryOracle(e, l.W, ctx, map[string]any{"history": h, "step": step, "last_ops": trail})
